@@ -154,7 +154,15 @@ func main() {
 						b.WriteString(",")
 					}
 					val := palette[(*seed*7+int(next)*3+fi*5)%len(palette)]
-					fmt.Fprintf(&b, "%q:%s", f, val)
+					key := fmt.Sprintf("%q", f)
+					if (*seed+int(next)+fi)%3 == 0 {
+						// the same key spelled with a JSON escape (\u0061 is "a")
+						key = fmt.Sprintf(`"\u%04x"`, f[0]) + ""
+						if len(f) > 1 {
+							key = key[:len(key)-1] + f[1:] + `"`
+						}
+					}
+					fmt.Fprintf(&b, "%s:%s", key, val)
 				}
 				b.WriteString("}")
 				d := env.Doc{MID: 1000 + next, RID: next, Tok: map[string][]string{"k": {fmt.Sprintf("c%d", len(stored))}}, Body: b.String()}
@@ -221,9 +229,10 @@ func main() {
 			check("store-fetch", docs)
 		}
 		// (b) proxy search with a fields pipe; ids and order must equal the run without the pipe
-		pipe := " | fields "
+		kw := []string{"fields", "FIELDS", "Fields"}[(n+*seed)%3]
+		pipe := " | " + kw + " "
 		if !c.Flt.Allow {
-			pipe += "except "
+			pipe += []string{"except ", "EXCEPT ", "Except "}[(n/3+*seed)%3]
 		}
 		pipe += strings.Join(c.Flt.Fields, ", ")
 		base := "k:" + strings.TrimPrefix(tokOf(stored, string(key)), "k:")
